@@ -95,7 +95,16 @@ regs:
 		}
 	}
 	c.R.Sample(map[string]interface{}{"call": "GetFlag(FlagZ|FlagC) with F=40", "result": (&z80.GPR{AF: z80.Register{Lo: 0x40}}).GetFlag(z80.FlagZ | z80.FlagC)})
-	c.R.Sample(map[string]interface{}{"call": "SetU16(BEEF)", "Hi": "BE", "Lo": "EF"})
+	{
+		var rr z80.Register
+		rr.SetU16(0xbeef)
+		c.R.Sample(map[string]interface{}{"call": "SetU16(BEEF)", "Hi": h8(rr.Hi), "Lo": h8(rr.Lo), "U16": h16(rr.U16())})
+		g := z80.GPR{AF: z80.Register{Hi: 0x28, Lo: 0x40}}
+		g.SetFlag(z80.FlagC)
+		c.R.Sample(map[string]interface{}{"call": "SetFlag(FlagC) with A=28 F=40", "A_after": h8(g.AF.Hi), "F_after": h8(g.AF.Lo)})
+		g.ResetFlag(z80.FlagZ | z80.Flag3)
+		c.R.Sample(map[string]interface{}{"call": "then ResetFlag(FlagZ|Flag3)", "A_after": h8(g.AF.Hi), "F_after": h8(g.AF.Lo)})
+	}
 	c.R.Set("evaluations", evals)
 	c.R.Set("distinct_nontrivial", evals-8)
 	c.R.Set("exhaustive", true)
